@@ -66,15 +66,25 @@ func c01Alphabet(flavor, tier string, ncfg int) []dbOp {
 			ops = append(ops, dbOp{Op: "put", K: k, V: v})
 		}
 	}
-	ops = append(ops, dbOp{Op: "del", K: 0}, dbOp{Op: "del", K: 1})
-	ops = append(ops, dbOp{Op: "rot"}, dbOp{Op: "cmp"})
 	if flavor == "C06" {
-		ops = append(ops, dbOp{Op: "put", K: 2, V: 0}, dbOp{Op: "reopen", C: 0})
-		for c := 1; c < ncfg; c++ {
+		// table lineages are what matters here: every put/delete of this alphabet is followed by a rotation + flush
+		// (one table per operation), so a depth-5 program reaches 5-table lineages; two plain operations keep the
+		// memstore-over-table shadowing in play
+		ops = nil
+		for k := 0; k < 2; k++ {
+			for v := 0; v < 2; v++ {
+				ops = append(ops, dbOp{Op: "putrot", K: k, V: v})
+			}
+		}
+		ops = append(ops, dbOp{Op: "putrot", K: 2, V: 0}, dbOp{Op: "delrot", K: 0}, dbOp{Op: "delrot", K: 1})
+		ops = append(ops, dbOp{Op: "cmp"}, dbOp{Op: "put", K: 0, V: 0}, dbOp{Op: "del", K: 0})
+		for c := 0; c < ncfg; c++ {
 			ops = append(ops, dbOp{Op: "reopen", C: c})
 		}
 		return ops
 	}
+	ops = append(ops, dbOp{Op: "del", K: 0}, dbOp{Op: "del", K: 1})
+	ops = append(ops, dbOp{Op: "rot"}, dbOp{Op: "cmp"})
 	for c := 0; c < ncfg; c++ {
 		ops = append(ops, dbOp{Op: "reopen", C: c})
 	}
@@ -88,9 +98,7 @@ func (c c01) Run(ctx *core.Ctx) error {
 	alpha := c01Alphabet(flavor, ctx.Tier, len(cfgs))
 	maxDepth := 4
 	budget := 150 * time.Second
-	if flavor == "C06" {
-		maxDepth = 5
-	}
+	// (C06's alphabet creates one table per operation: depth 4 already reaches 4-table lineages)
 	if ctx.Tier == "thorough" {
 		maxDepth += 2
 		budget = 40 * time.Minute
